@@ -891,3 +891,495 @@ Proof.
     rewrite firstn_all in H. rewrite H. apply delivered_upto_all. lia.
   - rewrite (polling_prefixes _ n Hn Hp). apply delivered_upto_prefix.
 Qed.
+
+(* ==== JSON layer ================================================================== *)
+From Coq Require Import ZifyBool.
+
+Section jvalue_induction.
+  Variable P : jvalue -> Prop.
+  Hypothesis HNull : P JNull.
+  Hypothesis HBool : forall b, P (JBool b).
+  Hypothesis HNum : forall t, P (JNum t).
+  Hypothesis HStr : forall s, P (JStr s).
+  Hypothesis HList : forall l, Forall P l -> P (JList l).
+  Hypothesis HDict : forall kvs, Forall (fun kv => P (snd kv)) kvs -> P (JDict kvs).
+  Fixpoint jvalue_ind2 (v : jvalue) : P v :=
+    match v with
+    | JNull => HNull
+    | JBool b => HBool b
+    | JNum t => HNum t
+    | JStr s => HStr s
+    | JList l => HList l ((fix go (l : list jvalue) : Forall P l :=
+                             match l with
+                             | [] => Forall_nil _
+                             | x :: r => Forall_cons x (jvalue_ind2 x) (go r)
+                             end) l)
+    | JDict kvs => HDict kvs ((fix go (l : list (list Z * jvalue)) : Forall (fun kv => P (snd kv)) l :=
+                                match l with
+                                | [] => Forall_nil _
+                                | kv :: r => Forall_cons kv (jvalue_ind2 (snd kv)) (go r)
+                                end) kvs)
+    end.
+End jvalue_induction.
+
+Lemma dumps_list l : dumps (JList l) = 91 :: dumps_items l ++ [93].
+Proof.
+  reflexivity.
+Qed.
+
+Lemma dumps_dict kvs : dumps (JDict kvs) = LBR :: dumps_pairs kvs ++ [RBR].
+Proof.
+  reflexivity.
+Qed.
+
+(* ASCII and not a newline *)
+Definition okc (c : Z) : bool := is_ascii c && negb (Z.eqb c NL).
+Definition clean (t : list Z) : bool := forallb okc t.
+
+Lemma clean_app a b : clean (a ++ b) = clean a && clean b.
+Proof. apply forallb_app. Qed.
+
+Lemma hexdigit_ok n : 0 <= n < 16 -> okc (hexdigit n) = true.
+Proof. intro H. unfold okc, is_ascii, hexdigit, NL. destruct (Z.ltb n 10) eqn:E; lia. Qed.
+
+Lemma hex4_clean c : 0 <= c < 65536 -> clean (hex4 c) = true.
+Proof.
+  intro H. unfold hex4, clean. cbn [forallb].
+  rewrite !hexdigit_ok; [reflexivity| | | |].
+  - pose proof (Z.mod_pos_bound c 16); lia.
+  - pose proof (Z.mod_pos_bound (c / 16) 16); lia.
+  - pose proof (Z.mod_pos_bound (c / 256) 16); lia.
+  - split; [apply Z.div_pos; lia | apply Z.div_lt_upper_bound; lia].
+Qed.
+
+Lemma esc_u_clean c : 0 <= c < 65536 -> clean (esc_u c) = true.
+Proof. intro H. unfold esc_u. change (clean (92 :: 117 :: hex4 c)) with (clean (hex4 c)). apply hex4_clean; exact H. Qed.
+
+Lemma escape_char_clean c : codepoint_ok c = true -> clean (escape_char c) = true.
+Proof.
+  unfold codepoint_ok. intro H. unfold escape_char.
+  destruct (Z.eqb c 34); [reflexivity|]. destruct (Z.eqb c 92); [reflexivity|].
+  destruct (Z.eqb c 10); [reflexivity|]. destruct (Z.eqb c 13); [reflexivity|].
+  destruct (Z.eqb c 9); [reflexivity|]. destruct (Z.eqb c 8); [reflexivity|].
+  destruct (Z.eqb c 12); [reflexivity|].
+  destruct (Z.leb 32 c && Z.leb c 126) eqn:E1.
+  - unfold clean, okc, is_ascii, NL. cbn [forallb]. lia.
+  - destruct (Z.ltb c 65536) eqn:E2.
+    + apply esc_u_clean. lia.
+    + rewrite clean_app, !esc_u_clean; [reflexivity| |].
+      * pose proof (Z.mod_pos_bound (c - 65536) 1024). lia.
+      * assert (0 <= (c - 65536) / 1024 < 1024); [|lia].
+        split; [apply Z.div_pos; lia | apply Z.div_lt_upper_bound; lia].
+Qed.
+
+Lemma dump_string_clean s : forallb codepoint_ok s = true -> clean (dump_string s) = true.
+Proof.
+  intro H. unfold dump_string. change (clean (34 :: flat_map escape_char s ++ [34])) with (clean (flat_map escape_char s ++ [34])).
+  rewrite clean_app. rewrite andb_true_iff. split; [|reflexivity].
+  induction s as [|c s IH]; [reflexivity|].
+  cbn [forallb flat_map] in *. apply andb_true_iff in H. destruct H as [Hc Hs].
+  rewrite clean_app, (escape_char_clean c Hc), (IH Hs). reflexivity.
+Qed.
+
+Lemma numchar_ok c : numchar c = true -> okc c = true.
+Proof. unfold numchar, okc, is_ascii, NL. cbn [mem_ch]. lia. Qed.
+
+Lemma numtok_clean t : numtok_ok t = true -> clean t = true.
+Proof.
+  unfold numtok_ok. destruct t as [|c t]; [discriminate|]. intro H.
+  apply andb_true_iff in H. destruct H as [_ H]. unfold clean.
+  apply forallb_forall. intros x Hx. apply numchar_ok. rewrite forallb_forall in H. apply H. exact Hx.
+Qed.
+
+(* every serialisation is ASCII-only text without a raw newline *)
+Theorem dumps_clean : forall v, jwf v = true -> clean (dumps v) = true.
+Proof.
+  induction v as [| [|] | t | s | l IH | kvs IH] using jvalue_ind2; intro H; try reflexivity.
+  - apply numtok_clean. exact H.
+  - apply dump_string_clean. exact H.
+  - rewrite dumps_list. change (clean (91 :: dumps_items l ++ [93])) with (clean (dumps_items l ++ [93])).
+    rewrite clean_app, andb_true_iff. split; [|reflexivity]. cbn [jwf] in H.
+    induction l as [|x l IHl]; [reflexivity|]. inversion IH as [|? ? Hx Hl]; subst.
+    cbn [forallb] in H. apply andb_true_iff in H. destruct H as [H1 H2].
+    destruct l as [|y l]; [exact (Hx H1)|].
+    change (dumps_items (x :: y :: l)) with (dumps x ++ SEP_ITEM ++ dumps_items (y :: l)).
+    rewrite !clean_app, (Hx H1), (IHl Hl H2). reflexivity.
+  - rewrite dumps_dict. change (clean (LBR :: dumps_pairs kvs ++ [RBR])) with (clean (dumps_pairs kvs ++ [RBR])).
+    rewrite clean_app, andb_true_iff. split; [|reflexivity]. cbn [jwf] in H.
+    induction kvs as [|[k x] l IHl]; [reflexivity|]. inversion IH as [|? ? Hx Hl]; subst.
+    cbn [forallb fst snd] in H. apply andb_true_iff in H. destruct H as [H1 H2].
+    apply andb_true_iff in H1. destruct H1 as [Hk H1]. cbn [snd] in Hx.
+    destruct l as [|[j y] l].
+    + cbn [dumps_pairs]. rewrite !clean_app, (dump_string_clean k Hk), (Hx H1). reflexivity.
+    + change (dumps_pairs ((k, x) :: (j, y) :: l))
+        with (dump_string k ++ SEP_KEY ++ dumps x ++ SEP_ITEM ++ dumps_pairs ((j, y) :: l)).
+      rewrite !clean_app, (dump_string_clean k Hk), (Hx H1), (IHl Hl H2). reflexivity.
+Qed.
+
+Lemma clean_ascii t : clean t = true -> ascii_text t = true /\ mem_ch NL t = false.
+Proof.
+  induction t as [|c t IH]; intro H; [split; reflexivity|].
+  cbn [clean forallb] in H. apply andb_true_iff in H. destruct H as [Hc Ht].
+  destruct (IH Ht) as [I1 I2]. unfold okc in Hc. apply andb_true_iff in Hc. destruct Hc as [Ha Hn].
+  cbn [ascii_text forallb mem_ch]. unfold ascii_text in I1. rewrite Ha, I1, I2.
+  split; [reflexivity|]. apply negb_true_iff in Hn. rewrite Z.eqb_sym, Hn. reflexivity.
+Qed.
+
+(* the "json.dumps facts" of c18_framing, now a theorem about the modelled serialiser *)
+Theorem dumps_dict_shape kvs : jwf (JDict kvs) = true ->
+  payload_shape_b (dumps (JDict kvs)) = true /\ ascii_text (dumps (JDict kvs)) = true.
+Proof.
+  intro H. destruct (clean_ascii _ (dumps_clean _ H)) as [Ha Hn]. split; [|exact Ha].
+  rewrite dumps_dict in *. unfold payload_shape_b. rewrite Z.eqb_refl, Hn.
+  rewrite last_last, Z.eqb_refl. reflexivity.
+Qed.
+
+(* ---- the Reporter on JSON values ---------------------------------------------------- *)
+
+Definition is_digit (c : Z) : bool := Z.leb 48 c && Z.leb c 57.
+
+Lemma dec_aux_digits : forall fuel n acc, 0 <= n -> forallb is_digit acc = true ->
+  forallb is_digit (dec_aux fuel n acc) = true.
+Proof.
+  induction fuel as [|f IH]; intros n acc Hn Hacc; [exact Hacc|].
+  cbn [dec_aux]. assert (Hd : is_digit (48 + n mod 10) = true).
+  { unfold is_digit. pose proof (Z.mod_pos_bound n 10). lia. }
+  destruct (Z.ltb n 10).
+  - cbn [forallb]. rewrite Hd, Hacc. reflexivity.
+  - apply IH; [apply Z.div_pos; lia|]. cbn [forallb]. rewrite Hd, Hacc. reflexivity.
+Qed.
+
+Lemma dec_aux_keeps_nonempty : forall fuel n acc, acc <> [] -> dec_aux fuel n acc <> [].
+Proof.
+  induction fuel as [|f IH]; intros n acc H; [exact H|].
+  cbn [dec_aux]. destruct (Z.ltb n 10); [discriminate|]. apply IH. discriminate.
+Qed.
+
+Lemma dec_aux_nonempty : forall fuel n acc, dec_aux (S fuel) n acc <> [].
+Proof.
+  intros fuel n acc. cbn [dec_aux]. destruct (Z.ltb n 10); [discriminate|].
+  apply dec_aux_keeps_nonempty. discriminate.
+Qed.
+
+Lemma digits_numtok t : t <> [] -> forallb is_digit t = true -> numtok_ok t = true.
+Proof.
+  destruct t as [|c t]; [congruence|]. intros _ H. unfold numtok_ok.
+  cbn [forallb] in *. apply andb_true_iff in H. destruct H as [Hc Ht].
+  assert (Hn : forall x, is_digit x = true -> numchar x = true).
+  { intros x Hx. unfold is_digit in Hx. unfold numchar. rewrite Hx. reflexivity. }
+  rewrite (Hn c Hc). unfold numstart. unfold is_digit in Hc. rewrite Hc. cbn [orb andb].
+  apply forallb_forall. intros x Hx. apply Hn. rewrite forallb_forall in Ht. apply Ht. exact Hx.
+Qed.
+
+Lemma dec_nat_numtok k : numtok_ok (dec_nat k) = true.
+Proof.
+  unfold dec_nat. apply digits_numtok; [apply dec_aux_nonempty|].
+  apply dec_aux_digits; [lia | reflexivity].
+Qed.
+
+Definition clock_ok (ck : clock) : bool :=
+  numtok_ok (ck_timestamp ck) && numtok_ok (ck_time ck) &&
+  match ck_cost ck with Some c => numtok_ok c | None => true end.
+Definition kwargs_ok (kw : list (list Z * jvalue)) : bool :=
+  forallb (fun kv => forallb codepoint_ok (fst kv) && jwf (snd kv)) kw.
+Definition cevent_ok (e : cevent) : bool :=
+  match e with CSay _ => true | CCall ck kw => clock_ok ck && kwargs_ok kw end.
+
+Lemma report_dict_wf add_time ck kw k :
+  clock_ok ck = true -> kwargs_ok kw = true -> jwf (report_dict add_time ck kw k) = true.
+Proof.
+  unfold clock_ok, kwargs_ok, report_dict, reserved_fields. intros Hc Hk.
+  apply andb_true_iff in Hc. destruct Hc as [Hc H3]. apply andb_true_iff in Hc. destruct Hc as [H1 H2].
+  cbn [jwf]. rewrite forallb_app, Hk. cbn [andb forallb fst snd jwf]. rewrite H1.
+  rewrite forallb_app. cbn [forallb fst snd jwf]. rewrite dec_nat_numtok.
+  destruct add_time; [|reflexivity]. cbn [forallb fst snd jwf]. rewrite H2.
+  destruct (ck_cost ck); cbn [forallb fst snd jwf]; [rewrite H3|]; reflexivity.
+Qed.
+
+(* generic: a predicate that holds of every oracle answer holds of every report chunk *)
+Fixpoint reports_all (P : list Z -> bool) (cs : list chunk) : bool :=
+  match cs with
+  | [] => true
+  | Noise _ :: r => reports_all P r
+  | Report p :: r => P p && reports_all P r
+  end.
+
+Lemma reports_all_app P a b : reports_all P (a ++ b) = reports_all P a && reports_all P b.
+Proof.
+  induction a as [|[s|p] a IH]; [reflexivity| |]; rewrite <- app_comm_cons; cbn [reports_all].
+  - exact IH.
+  - rewrite IH, andb_assoc. reflexivity.
+Qed.
+
+Definition dumps_sat (P : list Z -> bool) (e : event) : Prop :=
+  match e with
+  | Say _ => True
+  | Call r => forall k p sz, rq_dump r k = Some (p, sz) -> P p = true
+  end.
+
+Lemma run_script_reports_all P m1 m2 : forall evs st, Forall (dumps_sat P) evs ->
+  reports_all P (snd (run_script m1 m2 st evs)) = true.
+Proof.
+  induction evs as [|[s|q] evs IH]; intros st Hall; [reflexivity| |].
+  - rewrite run_script_cons_say. inversion Hall; subst. specialize (IH st H2).
+    destruct (run_script m1 m2 st evs) as [[st' os] cs]. exact IH.
+  - rewrite run_script_cons_call. inversion Hall as [|? ? Hq Hr]; subst.
+    assert (Hc : reports_all P (snd (report_call m1 m2 st q)) = true).
+    { unfold report_call.
+      destruct (existsb (fun b => b) (rq_none q)); [reflexivity|].
+      destruct (existsb (starts_with ST_PREFIX) (rq_keys q)); [reflexivity|].
+      destruct (rq_dump q st) as [[p sz]|] eqn:E; [|reflexivity].
+      destruct (Z.ltb sz SIZE_LIMIT); [|reflexivity].
+      cbn. rewrite (Hq st p sz E). reflexivity. }
+    destruct (report_call m1 m2 st q) as [[st1 o] c1]. specialize (IH st1 Hr).
+    destruct (run_script m1 m2 st1 evs) as [[st' os] cs]. cbn [snd] in *.
+    rewrite reports_all_app, Hc, IH. reflexivity.
+Qed.
+
+Lemma reports_all_shape_ascii cs :
+  reports_all (fun p => payload_shape_b p && ascii_text p) cs = true ->
+  payloads_ok cs = true /\ payloads_ascii cs = true.
+Proof.
+  induction cs as [|[s|p] cs IH]; intro H; [split; reflexivity| |]; cbn [reports_all payloads_ok payloads_ascii] in *.
+  - exact (IH H).
+  - apply andb_true_iff in H. destruct H as [Hp H]. apply andb_true_iff in Hp. destruct Hp as [H1 H2].
+    destruct (IH H) as [I1 I2]. rewrite H1, H2, I1, I2. split; reflexivity.
+Qed.
+
+Lemma to_event_sat add_time e : cevent_ok e = true ->
+  dumps_sat (fun p => payload_shape_b p && ascii_text p) (to_event add_time e).
+Proof.
+  destruct e as [s|ck kw]; [exact (fun _ => I)|]. cbn [cevent_ok to_event dumps_sat to_request rq_dump].
+  intros H k p sz E. apply andb_true_iff in H. destruct H as [Hc Hk].
+  injection E as <- _. pose proof (report_dict_wf add_time ck kw k Hc Hk) as Hw.
+  unfold report_dict in *. cbv beta. destruct (dumps_dict_shape _ Hw) as [H1 H2].
+  apply andb_true_iff. split; [exact H1 | exact H2].
+Qed.
+
+(* which concrete call a payload on the stream is the serialisation of *)
+Definition sent_concrete (add_time : bool) (cevs : list cevent) (k : nat) (p : list Z) : Prop :=
+  exists ck kw, In (CCall ck kw) cevs /\
+    p = dumps (report_dict add_time ck kw k) /\
+    existsb is_null (map snd kw) = false /\
+    existsb (starts_with ST_PREFIX) (map fst kw) = false /\
+    ascii_str_sizeof p < SIZE_LIMIT.
+
+Lemma sent_as_concrete add_time cevs k p :
+  sent_as (map (to_event add_time) cevs) k p -> sent_concrete add_time cevs k p.
+Proof.
+  intros [r [sz [Hin [Hacc [Hd Hsz]]]]]. apply in_map_iff in Hin. destruct Hin as [e [He Hin]].
+  destruct e as [s|ck kw]; [discriminate|]. cbn [to_event] in He. injection He as <-.
+  exists ck, kw. cbn [to_request rq_dump rq_keys rq_none] in *. injection Hd as <- <-.
+  unfold accepted_by_asserts in Hacc. cbn [rq_none rq_keys to_request] in Hacc.
+  apply andb_true_iff in Hacc. destruct Hacc as [A1 A2].
+  apply negb_true_iff in A1. apply negb_true_iff in A2.
+  repeat split; auto.
+  rewrite <- A1. clear. induction kw as [|[k' v] kw IH]; [reflexivity|]. cbn. rewrite IH. reflexivity.
+Qed.
+
+(* Reporter on JSON values + stream + LocalBackend reading + retrieve: no
+   hypothesis about json.dumps is left *)
+Theorem reporter_concrete add_time m1 m2 cevs k0 :
+  forallb cevent_ok cevs = true ->
+  match run_script m1 m2 k0 (map (to_event add_time) cevs) with
+  | (_, os, cs) =>
+      payloads_ok cs = true /\ payloads_ascii cs = true /\
+      StronglySorted lt (emitted_iters os) /\
+      Forall2 (sent_concrete add_time cevs) (emitted_iters os) (payloads_of cs) /\
+      (noise_ok cs = true ->
+       retrieve_model (readlines (render cs)) = payloads_of cs /\
+       forall n, poll_model (firstn n (render cs)) = delivered_upto cs n)
+  end.
+Proof.
+  intro Hok.
+  assert (Hall : Forall (dumps_sat (fun p => payload_shape_b p && ascii_text p)) (map (to_event add_time) cevs)).
+  { apply Forall_forall. intros e He. apply in_map_iff in He. destruct He as [c [<- Hc]].
+    apply to_event_sat. rewrite forallb_forall in Hok. apply Hok. exact Hc. }
+  pose proof (run_script_reports_all _ m1 m2 _ k0 Hall) as Hr.
+  pose proof (run_script_counter m1 m2 (map (to_event add_time) cevs) k0) as Hc.
+  destruct (run_script m1 m2 k0 (map (to_event add_time) cevs)) as [[k' os] cs]. cbn [snd] in Hr.
+  destruct (reports_all_shape_ascii cs Hr) as [Hp Ha]. destruct Hc as [_ [_ [Hs Hf]]].
+  split; [exact Hp|]. split; [exact Ha|]. split; [exact Hs|]. split.
+  - eapply Forall2_impl; [|exact Hf]. intros a b. apply sent_as_concrete.
+  - intro Hn. split; [apply framing_lines; assumption|]. intro n. apply polling_prefixes; assumption.
+Qed.
+
+(* ---- strings: json.loads undoes json.dumps' escaping -------------------------------- *)
+Ltac Zify.zify_post_hook ::= Z.div_mod_to_equations.
+
+Lemma hexval_hexdigit n : 0 <= n < 16 -> hexval (hexdigit n) = Some n.
+Proof.
+  intro H. unfold hexval, hexdigit. destruct (Z.ltb n 10) eqn:E.
+  - replace (Z.leb 48 (48 + n) && Z.leb (48 + n) 57) with true by lia. f_equal; lia.
+  - replace (Z.leb 48 (87 + n) && Z.leb (87 + n) 57) with false by lia.
+    replace (Z.leb 97 (87 + n) && Z.leb (87 + n) 102) with true by lia. f_equal; lia.
+Qed.
+
+Lemma unhex4_hex4 c rest : 0 <= c < 65536 -> unhex4 (hex4 c ++ rest) = Some (c, rest).
+Proof.
+  intro H. unfold hex4. cbn [app unhex4].
+  rewrite !hexval_hexdigit by lia. f_equal. f_equal. lia.
+Qed.
+
+(* no high surrogate immediately followed by a low surrogate (json.loads would join
+   the two escapes into one character: a quirk of the stdlib, excluded) *)
+Fixpoint no_surrogate_pair (s : list Z) : bool :=
+  match s with
+  | c :: (d :: _) as r => negb (is_high c && is_low d) && no_surrogate_pair r
+  | _ => true
+  end.
+
+Definition body (s : list Z) : list Z := flat_map escape_char s.
+
+(* the three shapes an escaped character can have *)
+Lemma escape_char_cases c : codepoint_ok c = true ->
+  (exists x, escape_char c = [92; x] /\ x <> 117 /\
+             (Z.eqb x 34 = true /\ c = 34 \/ Z.eqb x 92 = true /\ c = 92 \/ x = 110 /\ c = 10 \/ x = 114 /\ c = 13 \/
+              x = 116 /\ c = 9 \/ x = 98 /\ c = 8 \/ x = 102 /\ c = 12)) \/
+  (escape_char c = [c] /\ 32 <= c <= 126 /\ c <> 34 /\ c <> 92) \/
+  (escape_char c = esc_u c /\ 0 <= c < 65536) \/
+  (escape_char c = esc_u (55296 + (c - 65536) / 1024) ++ esc_u (56320 + (c - 65536) mod 1024) /\ 65536 <= c < 1114112).
+Proof.
+  unfold codepoint_ok, escape_char. intro H.
+  destruct (Z.eqb c 34) eqn:E1.
+  { left; exists 34. split; [reflexivity|]. split; [lia|]. left. split; [reflexivity|lia]. }
+  destruct (Z.eqb c 92) eqn:E2.
+  { left; exists 92. split; [reflexivity|]. split; [lia|]. right; left. split; [reflexivity|lia]. }
+  destruct (Z.eqb c 10) eqn:E3.
+  { left; exists 110. split; [reflexivity|]. split; [lia|]. do 2 right; left. split; [reflexivity|lia]. }
+  destruct (Z.eqb c 13) eqn:E4.
+  { left; exists 114. split; [reflexivity|]. split; [lia|]. do 3 right; left. split; [reflexivity|lia]. }
+  destruct (Z.eqb c 9) eqn:E5.
+  { left; exists 116. split; [reflexivity|]. split; [lia|]. do 4 right; left. split; [reflexivity|lia]. }
+  destruct (Z.eqb c 8) eqn:E6.
+  { left; exists 98. split; [reflexivity|]. split; [lia|]. do 5 right; left. split; [reflexivity|lia]. }
+  destruct (Z.eqb c 12) eqn:E7.
+  { left; exists 102. split; [reflexivity|]. split; [lia|]. do 6 right. split; [reflexivity|lia]. }
+  destruct (Z.leb 32 c && Z.leb c 126) eqn:E8.
+  { right; left. split; [reflexivity|]. lia. }
+  destruct (Z.ltb c 65536) eqn:E9; [right; right; left; split; [reflexivity|lia]|].
+  right; right; right. split; [reflexivity|lia].
+Qed.
+
+(* after a lone high surrogate, what follows is not the escape of a low surrogate *)
+Lemma not_low_follows {A} (X : Z -> list Z -> A) (single : A) s rest :
+  forallb codepoint_ok s = true ->
+  match s with d :: _ => is_low d = false | [] => True end ->
+  match strip_prefix [92; 117] (body s ++ 34 :: rest) with
+  | Some r3 => match unhex4 r3 with
+               | Some (lo, r4) => if is_low lo then X lo r4 else single
+               | None => single
+               end
+  | None => single
+  end = single.
+Proof.
+  intros Hs Hd. destruct s as [|d s]; [reflexivity|].
+  cbn [forallb] in Hs. apply andb_true_iff in Hs. destruct Hs as [Hc _].
+  unfold body. cbn [flat_map]. rewrite <- app_assoc.
+  destruct (escape_char_cases d Hc) as [[x [-> [Hx _]]] | [[-> [Hr [H34 H92]]] | [[-> Hr] | [-> Hr]]]].
+  - cbn [app]. rewrite !strip_prefix_cons, Z.eqb_refl.
+    destruct (Z.eqb 117 x) eqn:E; [apply Z.eqb_eq in E; congruence | reflexivity].
+  - cbn [app]. rewrite strip_prefix_cons. destruct (Z.eqb 92 d) eqn:E; [apply Z.eqb_eq in E; congruence | reflexivity].
+  - unfold esc_u. cbn [app]. rewrite !strip_prefix_cons, !Z.eqb_refl. cbn [strip_prefix].
+    rewrite unhex4_hex4 by lia. rewrite Hd. reflexivity.
+  - unfold esc_u. rewrite <- app_assoc. cbn [app]. rewrite !strip_prefix_cons, !Z.eqb_refl. cbn [strip_prefix].
+    rewrite unhex4_hex4 by lia.
+    replace (is_low (55296 + (d - 65536) / 1024)) with false by (unfold is_low; lia). reflexivity.
+Qed.
+
+Lemma parse_u_eq f r' :
+  parse_string_body (S f) (92 :: 117 :: r') =
+  match unhex4 r' with
+  | Some (u, r2) =>
+      let single := match parse_string_body f r2 with Some (s, rest) => Some (u :: s, rest) | None => None end in
+      if is_high u then
+        match strip_prefix [92; 117] r2 with
+        | Some r3 =>
+            match unhex4 r3 with
+            | Some (lo, r4) =>
+                if is_low lo then
+                  match parse_string_body f r4 with
+                  | Some (s, rest) => Some (65536 + (u - 55296) * 1024 + (lo - 56320) :: s, rest)
+                  | None => None
+                  end
+                else single
+            | None => single
+            end
+        | None => single
+        end
+      else single
+  | None => None
+  end.
+Proof. reflexivity. Qed.
+
+Theorem parse_string_roundtrip : forall s rest fuel,
+  forallb codepoint_ok s = true -> no_surrogate_pair s = true -> (length s < fuel)%nat ->
+  parse_string_body fuel (body s ++ 34 :: rest) = Some (s, rest).
+Proof.
+  induction s as [|c s IH]; intros rest fuel Hs Hp Hf.
+  - destruct fuel as [|f]; [lia|]. reflexivity.
+  - destruct fuel as [|f]; [cbn [length] in Hf; lia|].
+    cbn [forallb] in Hs. apply andb_true_iff in Hs. destruct Hs as [Hc Hs].
+    assert (Hp' : no_surrogate_pair s = true).
+    { cbn [no_surrogate_pair] in Hp. destruct s; [reflexivity|]. apply andb_true_iff in Hp. tauto. }
+    assert (Hf' : (length s < f)%nat) by (cbn [length] in Hf; lia).
+    specialize (IH rest f Hs Hp' Hf').
+    unfold body in *. cbn [flat_map]. rewrite <- app_assoc.
+    destruct (escape_char_cases c Hc) as [[x [-> [Hx Hcase]]] | [[-> [Hr [H34 H92]]] | [[-> Hr] | [-> Hr]]]].
+    + cbn [app parse_string_body]. rewrite IH.
+      destruct Hcase as [[E ->] | [[E ->] | [[-> ->] | [[-> ->] | [[-> ->] | [[-> ->] | [-> ->]]]]]]].
+      * apply Z.eqb_eq in E. subst x. reflexivity.
+      * apply Z.eqb_eq in E. subst x. reflexivity.
+      * reflexivity.
+      * reflexivity.
+      * reflexivity.
+      * reflexivity.
+      * reflexivity.
+    + cbn [app parse_string_body].
+      destruct (Z.eqb c 34) eqn:E1; [apply Z.eqb_eq in E1; congruence|].
+      destruct (Z.eqb c 92) eqn:E2; [apply Z.eqb_eq in E2; congruence|].
+      rewrite IH. reflexivity.
+    + unfold esc_u. cbn [app]. rewrite parse_u_eq.
+      rewrite unhex4_hex4 by lia. cbv zeta. rewrite IH.
+      destruct (is_high c) eqn:Eh; [|reflexivity].
+      apply (not_low_follows (fun lo r4 => match parse_string_body f r4 with
+                                            | Some (s0, rest0) => Some (65536 + (c - 55296) * 1024 + (lo - 56320) :: s0, rest0)
+                                            | None => None end) (Some (c :: s, rest)) s rest Hs).
+      destruct s as [|d s']; [exact I|]. cbn [no_surrogate_pair] in Hp.
+      apply andb_true_iff in Hp. destruct Hp as [Hp _]. rewrite Eh in Hp. cbn [andb] in Hp.
+      apply negb_true_iff in Hp. exact Hp.
+    + unfold esc_u. rewrite <- app_assoc. cbn [app]. rewrite parse_u_eq.
+      rewrite unhex4_hex4 by lia. cbv zeta.
+      replace (is_high (55296 + (c - 65536) / 1024)) with true by (unfold is_high; lia).
+      rewrite !strip_prefix_cons, !Z.eqb_refl. cbn [strip_prefix].
+      rewrite unhex4_hex4 by lia.
+      replace (is_low (56320 + (c - 65536) mod 1024)) with true by (unfold is_low; lia).
+      rewrite IH. do 2 f_equal. f_equal. lia.
+Qed.
+
+Lemma escape_char_nonempty c : (1 <= length (escape_char c))%nat.
+Proof.
+  unfold escape_char.
+  repeat match goal with |- context [if ?b then _ else _] => destruct b end; cbn [length esc_u hex4 app]; lia.
+Qed.
+
+Lemma body_length s : (length s <= length (body s))%nat.
+Proof.
+  induction s as [|c s IH]; [reflexivity|]. unfold body in *. cbn [flat_map length].
+  rewrite app_length. pose proof (escape_char_nonempty c). lia.
+Qed.
+
+(* a string value, whatever it contains (tag, braces, quotes, backslashes, newlines,
+   control characters, non-ASCII, lone surrogates), comes back from loads (dumps _) *)
+Theorem loads_dumps_str s :
+  forallb codepoint_ok s = true -> no_surrogate_pair s = true ->
+  loads (dumps (JStr s)) = Some (JStr s).
+Proof.
+  intros Hs Hp. unfold loads. cbn [dumps]. unfold dump_string.
+  change (flat_map escape_char s) with (body s).
+  remember (length ((34 :: body s ++ [34])%Z) + 1)%nat as fuel eqn:Ef.
+  destruct fuel as [|f]; [cbn [length] in Ef; lia|].
+  cbn [parse_value]. rewrite Z.eqb_refl.
+  rewrite (parse_string_roundtrip s [] _ Hs Hp); [reflexivity|].
+  rewrite app_length. pose proof (body_length s). cbn [length]. lia.
+Qed.
